@@ -384,6 +384,13 @@ def worker(sh):
             budget = sh.pick(3, 40) if which == 1 else sh.pick(2, 20)
             if k in ks[:4] or ks.index(k) < 4 + budget:
                 for label, comp, data in mutations(gc, P, cb, ub, rng, pool):
+                    # history: every third hostile string is decoded right after a successful validating decode of the point it is a
+                    # spelling / neighbour of (either form) - a verdict must not depend on what was validated just before
+                    if rng.random() < 0.34:
+                        pc, pdata = rng.choice(((1, cb), (0, ub)))
+                        lines2.append('c.%s_decenc %d %s' % (cn, pc, pdata.hex()))
+                        meta2.append((gc, 'roundtrip', pc, pdata, P))
+                        label += '/after-validating-the-same-point'
                     lines2.append('c.%s_decenc %d %s' % (cn, int(comp), data.hex()))
                     meta2.append((gc, label, int(comp), data, None))
         # uniformly random strings and extreme strings
